@@ -338,7 +338,7 @@ class NonLinear(Sub):
     and PF on the same nonlinear family: the returned covariance is finite, symmetric and positive semidefinite (that clause of
     the statement is not restricted to linear systems); nothing else is claimed about their values."""
     name = "nonlinear"
-    n = {"quick": 1400, "thorough": 48000}
+    n = {"quick": 1400, "thorough": 24000}
 
     def strategy(self, tier):
         if tier == "thorough":
@@ -466,8 +466,8 @@ def pf_model(s, u, z, nx):
 
 class PFConv(Sub):
     name = "pf"
-    n = {"quick": 48, "thorough": 1000}
-    budget_s = {"quick": 150.0, "thorough": 3000.0}
+    n = {"quick": 48, "thorough": 480}
+    budget_s = {"quick": 150.0, "thorough": 2400.0}
     ESS_MIN = 100.0          # every run keeps an effective sample size N / rho of at least this
     LADDER = (1000, 4000, 16000, 60000)
 
